@@ -18,8 +18,19 @@ B. `resume` outcome: an operation that processed the single request `resume(d)` 
                       or below orthogonal regions only): requestImmediate finds no composite fork to mark and the
                       request is silently dropped — no guard, no callback, nothing changes (same for every kind)
 C. Pending queries inside guards, for operations with exactly one guard round, a single pending request, no
-   earlier approved round (`currentTransitions` empty), no cancellation: the `/p:e.x.c` masks of every guard
-   callback are compared with the enter / exit callbacks that follow in the same operation.  The library
+   earlier approved round (`currentTransitions` empty), no cancellation and no SILENT VETO (below): the
+   `/p:e.x.c` masks of every guard callback are compared with the enter / exit callbacks that follow in the
+   same operation.
+   Silent veto (KF-C04-silent-veto = KF-C02-ortho-root-dropped, not a C13 matter: the queries describe what the
+   request is "about to" do, and a round the library itself refuses has no outcome to compare with, exactly
+   like a round a guard cancelled): a request addressed to an orthogonal root (or a region without composite
+   ancestor) of a machine with a plain state below orthogonal regions only — `deepForwardExitGuard` walks
+   that plain state, which answers `false`, so the round is refused although no guard cancelled.  Recognised
+   from observations and structure only (`silently_vetoed`): no guard cancelled, the exit guards ran but NO
+   entry guard, no enter / exit / reenter callback in the whole operation, A= and S= of the snapshot
+   unchanged, destination without composite ancestor below an orthogonal root, a plain state without
+   composite ancestor exists.  Such rounds are counted (`c13_silent_veto_rounds`) and not judged; a round
+   that was not committed for any other reason is still judged (and rejected).  The library
    answers from the nearest composite ancestor only (DESIGN §8 F6), so disagreements of the following
    KNOWN kinds are classified and counted in `stats` (`c13_kf_<signature>`), not rejected (F6 = the pending
    queries look at the nearest composite ancestor only; `exit-deep`, `enter-loser`, `change-loser` are F6
@@ -96,6 +107,24 @@ def check_masks(tree, a, r, subs, where, reject, stats, machine_active=True):
                            % (where, n.id, s, n.subs.index(act[0])))
             elif s is not None:
                 reject('query-substate', '%s: activeSubState(%d)=%r although no sub-state is active' % (where, n.id, s))
+
+
+def silently_vetoed(tree, req, round_guards, op_events, before, after):
+    """The single, uncancelled guard round of this operation was refused by the library itself
+    (KF-C04-silent-veto / KF-C02-ortho-root-dropped): see C in the header.  Observations and structure only."""
+    _, kind, dest, _ = req
+    if kind == 'H' or dest >= len(tree) or tree[0].kind != 'O' or nearest_compo(tree, dest) is not None:
+        return False                # the known cause needs a destination that marks no orthogonal request bit
+    if not any(n.kind == 'L' and nearest_compo(tree, n.id) is None for n in tree):
+        return False                # no plain state the forward exit-guard walk could stumble over
+    if not round_guards or any(e[2] != 'exitGuard' for e in round_guards):
+        return False                # the veto is the answer of the exit-guard walk: entry guards never start
+    if any(e[0] == 'cb' and e[2] in ('enter', 'exit', 'reenter') for e in op_events):
+        return False                # something was committed
+    if before is None or after is None:
+        return False
+    # (R= may move: a guard of the refused round may have issued `schedule`, which is applied afterwards)
+    return all(before.get(k) == after.get(k) for k in ('A', 'S'))
 
 
 def classify(tree, sid, q, pe, px, pc, entered, exited, active_before, sub_before, sub_after):
@@ -205,7 +234,9 @@ def judge(hdr, ops, tree, config, rejections, stats):
                 reject(tag, what)
         if guards:
             stats.inc('c13_ops_with_guards')
-        if single:
+        if single and silently_vetoed(tree, pend[0], rounds[0][1], op.events, last.get(op.inst), op.snap):
+            stats.inc('c13_silent_veto_rounds')       # refused by the library, no guard cancelled: no outcome
+        elif single:
             stats.inc('c13_single_rounds')
             entered = set(int(e[1]) for e in op.events if e[0] == 'cb' and e[2] == 'enter')
             exited = set(int(e[1]) for e in op.events if e[0] == 'cb' and e[2] == 'exit')
